@@ -9,7 +9,7 @@ PID = "C11"
 RULE = ("non-mutating operations (| & - ^ ~, `in` for points / curves / shapes incl. Connected-in-Simple, ==, float, "
         "IntegrateShape.polynomial, deepcopy) on operands of all kinds: the operation is run once to count its N internal "
         "calls into the package, then re-run from a fresh state with a BaseException raised inside the k-th call, for k "
-        "evenly spread over 1..N (quick: <= 40 per case; thorough: <= 400) plus the first call of every distinct internal function; cheap queries (point / float / in / ==) on cold unbounded or holed operands with EVERY internal call as a crash point; afterwards every operand must denote exactly "
+        "evenly spread over 1..N (quick: <= 40 per case; thorough: <= 160) plus the first call of every distinct internal function; cheap queries (point / float / in / ==) on cold unbounded or holed operands with EVERY internal call as a crash point; afterwards every operand must denote exactly "
         "the region it denoted before (same kind, same curves up to inserted collinear vertices, same orientation) and "
         "answer area / containment / float(curve) as before; plus the invalid-argument matrix of move/scale/rotate x all "
         "kinds; non-trivial = the crash index is neither the first nor the last call; distinct = SHA-1")
@@ -26,7 +26,7 @@ def cases(ctx):
                     G.verts_to_jordan(G.cw([(F(-1), F(-1)), (F(1), F(-1)), (F(1), F(1)), (F(-1), F(1))]))])
     yield {"a": big, "b": hollow, "op": "in"}          # Connected-in-Simple: the repaired inversion window (F4)
     yield {"a": hollow, "b": big, "op": "in"}
-    for i in range(ctx.n(10, 300)):
+    for i in range(ctx.n(10, 120)):
         op = OPS[i % len(OPS)]
         kinds = ("S", "S", "C", "U", "D") if (ctx.thorough() or op not in "^-") else ("S", "S", "U", "C")
         env = OC.gen_env(rng, 2, R=rng.choice([5, 8]), kinds=kinds)
@@ -34,7 +34,7 @@ def cases(ctx):
             continue
         yield {"a": env[0], "b": env[1], "op": OPS[i % len(OPS)]}
     # cheap queries on cold objects with clockwise curves (unbounded shapes, holes): EVERY internal call is a crash point
-    for i in range(ctx.n(8, 120)):
+    for i in range(ctx.n(8, 48)):
         env = OC.gen_env(rng, 2, R=rng.choice([5, 8]), kinds=("U", "C", "U", "D"))
         if env is not None:
             yield {"a": env[0], "b": env[1], "op": ["pt", "jfloat", "in", "=="][i % 4], "all_points": True}
@@ -111,10 +111,10 @@ def check(ctx, case):
         return fails
     N, names = base[1]
     ctx.count("calls", N)
-    budget = ctx.n(24, 400)
+    budget = ctx.n(24, 160)
     # crash points: evenly spread over the run, plus the first / middle / last call of EVERY distinct internal function
     ks = sorted(set([1, 2, N - 1, N] + [1 + (N - 1) * i // budget for i in range(budget + 1)] + CR.site_points(names, 1)))
-    if case.get("all_points") and N <= ctx.n(400, 3000):
+    if case.get("all_points") and N <= ctx.n(400, 800):
         ks = list(range(1, N + 1))
     ks = [k for k in ks if 1 <= k <= N]
     ctx.count("crash points", len(ks))
